@@ -45,12 +45,20 @@ impl PackHeader {
         }
     }
 
-    pub fn check_info_size(&self) -> ASize {
-        let check_info_size = self.file_size.into_u64()
-            - Self::BLOCK_SIZE as u64
-            - self.check_info_pos.into_u64()
-            - BlockCheck::Crc32.size() as u64;
-        ASize::new(check_info_size as usize)
+    pub fn check_info_size(&self) -> Result<ASize> {
+        // The check info lies between `check_info_pos` and the tail of the pack.
+        self.file_size
+            .into_u64()
+            .checked_sub(Self::BLOCK_SIZE as u64 + BlockCheck::Crc32.size() as u64)
+            .and_then(|limit| limit.checked_sub(self.check_info_pos.into_u64()))
+            .map(|check_info_size| ASize::new(check_info_size as usize))
+            .ok_or_else(|| {
+                format_error!(format!(
+                    "Check info position ({}) is not valid in regard of pack size ({})",
+                    self.check_info_pos.into_u64(),
+                    self.file_size.into_u64()
+                ))
+            })
     }
 }
 
